@@ -97,6 +97,10 @@ def gen_doc(rng):
         head.insert(0, rng.choice(["<script>document.write('<meta charset=koi8-r>')</script>", "<style>/* <meta charset=\"shift_jis\"> */</style>",
                                    "<script>var m = \"<meta http-equiv='content-type' content='text/html; charset=big5'>\";</script>",
                                    "<title>&lt;meta charset=koi8-r&gt;</title>", "<!-- <meta charset=koi8-r> -->"]))
+    if rng.random() < 0.12:
+        # metas that merely mention content-type, or a pragma without content: none of them is a declaration, all must stay as they are
+        head.append(rng.choice(["<meta name=\"content-type\" content=\"text/plain; charset=koi8-r\">", "<meta property=\"Content-Type\" content=\"x\">",
+                                "<meta http-equiv=\"content-type\">", "<meta http-equiv=\"Content-Type\" name=\"x\">", "<meta itemprop=\"content-type\" content=\"charset=big5\">"]))
     if rng.random() < 0.15:
         head.append(rng.choice(["<meta http-equiv=\"refresh\" content=\"30; url=x\">", "<meta content=\"IE=edge\" http-equiv=\"X-UA-Compatible\">",
                                 "<meta http-equiv=\"default-style\" content=\"a\">", "<meta http-equiv=\"content-language\" content=\"charset=koi8-r\">"]))
